@@ -45,6 +45,8 @@ TEMPLATES = [
     ('mstring',   ["s{k} = T({k}, '''", "    text{k}", "    ''')"]),
     # a line of a string literal that ends in blanks (significant: they are part of the value)
     ('mstrtrail', ["t{k} = T({k}, '''ab  ", "cd  ", "ef''')"]),
+    # characters str.splitlines() breaks lines at, inside a string literal of a one-line statement (form feed, U+2028)
+    ('sepstring', ["z{k} = T({k}, 'a\x0cb\u2028c')"]),
     # a blank-only line inside a string literal: its blanks are part of the value
     ('mstrblank', ["b{k} = T({k}, '''x", "      ", "y''')"]),
     ('for',       ['for i{k} in range(2):', '    P({k})']),
